@@ -1,5 +1,111 @@
-"""C15 (partial): finite-element bases and standard trafo on one symbolic cell (E2)"""
-from vlib import common as C, e2prop
+"""C15 (partial): finite-element bases and standard trafo on one symbolic cell (E2); inter-cell continuity of Lagrange2/3 on two cells
+with symbolic numbering (E3, evaluators executed in IEEE double)"""
+import os, struct
+import z3
+from vlib import common as C, e2prop, e3, e3run
+from ir import irsym
+from checks.c19 import sig
+from checks.c10 import Topo, Tables, SHAPES, symbolic_inputs, all_models, cval
+
+REPO_SRCS = ['kernel/adjacency/graph.cpp', 'kernel/adjacency/permutation.cpp', 'kernel/adjacency/coloring.cpp', 'kernel/adjacency/cuthill_mckee.cpp']
+NOUT = 1400
+SIGS = {'w_tables': sig('w_tables', [('i32', 'shape'), ('out', 'out', 3 * 16 * 8, 8)]),
+        'w_continuity': sig('w_continuity', [('i32', 'shape'), ('i32', 'elem'), ('in', 'cnt', 8), ('in', 'data', 8), ('in', 'coords', 8), ('u64', 'npts'), ('in', 'pts', 8), ('out', 'out', NOUT, 8)])}
+
+
+def dbits(x):
+    return struct.unpack('<Q', struct.pack('<d', float(x)))[0]
+
+
+def bitsd(b):
+    return struct.unpack('<d', struct.pack('<Q', b & ((1 << 64) - 1)))[0]
+
+
+def two_cell_meshes(tab):
+    """(name, topo, vertex coordinates, sample points on the shared facet); both cells are affine images of the reference cell"""
+    out = []
+    out.append(('two quadrilaterals', Topo(0, [[0, 1, 2, 3], [1, 4, 3, 5]], 6, tab), [(0, 0), (1, 0), (0, 1), (1, 1), (2, 0.25), (2, 1.25)], [(1, 0.2), (1, 0.55), (1, 0.875)]))
+    out.append(('two triangles', Topo(1, [[0, 1, 2], [2, 1, 3]], 4, tab), [(0, 0), (1, 0), (0, 1), (1.25, 1.5)], [(1 - t, t) for t in (0.2, 0.55, 0.875)]))
+    a = (1, 0.25, 0.125); cube = [(i & 1, (i >> 1) & 1, i >> 2) for i in range(8)]
+    sh = [tuple(cube[k][d] + a[d] for d in range(3)) for k in (1, 3, 5, 7)]
+    out.append(('two hexahedra', Topo(2, [[0, 1, 2, 3, 4, 5, 6, 7], [1, 8, 3, 9, 5, 10, 7, 11]], 12, tab), cube + sh, [(1, 0.2, 0.7), (1, 0.35, 0.125), (1, 0.8, 0.45)]))
+    tv = [(0, 0, 0), (1, 0, 0), (0, 1, 0), (0, 0, 1), (1.125, 1.25, 0.875)]
+    bary = [(0.2, 0.3, 0.5), (0.625, 0.125, 0.25), (0.15, 0.7, 0.15)]
+    out.append(('two tetrahedra', Topo(3, [[0, 1, 2, 3], [1, 2, 3, 4]], 5, tab), tv, [tuple(sum(b[k] * tv[1 + k][d] for k in range(3)) for d in range(3)) for b in bary]))
+    return out
+
+
+def continuity_oracle(topo, symvars, npts):
+    def oracle(get, rv, st, ex):
+        props = []
+        for mdl in all_models(ex, st, symvars):
+            tagp = z3.Not(z3.And(*[x == mdl.eval(x, model_completion=True) for x in symvars])) if (mdl is not None and symvars) else False
+            cv = (lambda x: cval(x, mdl)) if mdl is not None else (lambda x: x)
+            p = 0; vals = []
+            ok_form = True
+            for c in range(2):
+                per = []
+                for q in range(npts):
+                    n = cv(get('out', p)); p += 1
+                    if not (0 < n <= 64) or p + 2 * n > NOUT:
+                        ok_form = False; break
+                    d = {}
+                    inj = True
+                    for i in range(n):
+                        g = cv(get('out', p)); v = cv(get('out', p + 1)); v = v if isinstance(v, float) else bitsd(v); p += 2
+                        inj = inj and g not in d
+                        d[g] = v
+                    per.append((d, inj))
+                if not ok_form:
+                    break
+                vals.append(per)
+            if not ok_form:
+                props.append(('evaluation output is well formed', tagp)); continue
+            ok_inj = all(inj for per in vals for (_, inj) in per)
+            ok_pu = all(abs(sum(d.values()) - 1.0) < 1e-11 for per in vals for (d, _) in per)
+            ok_cont, ok_van = True, True
+            for q in range(npts):
+                d0, d1 = vals[0][q][0], vals[1][q][0]
+                for g in set(d0) | set(d1):
+                    if g in d0 and g in d1:
+                        ok_cont = ok_cont and abs(d0[g] - d1[g]) < 1e-11
+                    else:
+                        ok_van = ok_van and abs(d0.get(g, d1.get(g))) < 1e-11
+            for lab, ok in (('local dofs of a cell map to distinct global dofs', ok_inj), ('basis functions sum to one on the shared facet', ok_pu),
+                            ('every global basis function has the same value on the shared facet seen from either cell', ok_cont),
+                            ('basis functions of dofs that do not lie on the shared facet vanish there', ok_van)):
+                props.append((lab, True if ok else tagp))
+        merged = {}
+        for lab, pr in props:
+            merged.setdefault(lab, []).append(pr)
+        out = []
+        for lab, prs in merged.items():
+            bad = [q for q in prs if q is not True]
+            out.append((lab, True if not bad else (bad[0] if len(bad) == 1 else z3.And(*[q if irsym.is_sym(q) else z3.BoolVal(bool(q)) for q in bad]))))
+        return out
+    return oracle
+
+
+def continuity_jobs(tab, quick):
+    jobs = []
+    for (mname, topo, coords, pts) in two_cell_meshes(tab):
+        D = topo.D
+        shared = [f for f in range(topo.cnt[D - 1]) if sum(1 for row in topo.idx[(D, D - 1)] if f in row) == 2][0]
+        frees = [[], [(D, 1)], [(D - 1, shared)], [(D, 1), (D - 1, shared)]]
+        if D == 3:
+            frees += [[(1, e)] for e in topo.idx[(2, 1)][shared]]
+            if not quick:
+                frees += [[(2, shared), (1, e)] for e in topo.idx[(2, 1)][shared]] + [[(D, 0)], [(D, 0), (D, 1)]]
+        for elem in (2, 3):
+            for fr in frees:
+                if quick and topo.name == 'hexa' and len(fr) == 2:
+                    continue
+                flat, cons = symbolic_inputs(topo, fr)
+                symvars = [x for x in flat if irsym.is_sym(x)]
+                inp = {'shape': topo.shape, 'elem': elem, 'cnt': topo.cnt + [0] * (4 - len(topo.cnt)), 'data': flat, 'coords': [dbits(x) for v in coords for x in v], 'npts': len(pts), 'pts': [dbits(x) for q in pts for x in q], 'out': NOUT}
+                nm = 'continuity Lagrange%d on %s, free: %s' % (elem, mname, ', '.join('%d-entity %d' % e for e in fr) if fr else 'none (reference numbering)')
+                jobs.append((nm, 'w_continuity', inp, cons, continuity_oracle(topo, symvars, len(pts)), {'max_paths': 4000}))
+    return jobs
 
 
 def main():
@@ -11,8 +117,22 @@ def main():
                       'Assembly::Interpolator::project + node functionals + DofMapping', 'Geometry::ReferenceCellFactory, ConformalMesh<Shape,dim,SymReal>', 'Tiny::Matrix/Tensor3 algebra (set_inverse, det, add_mat_tensor_mult, ...)']
     chk.assume(*e2prop.E2_ASSUME)
     chk.assume('derivatives of returned values are formed by symbolic differentiation of the executed term DAG w.r.t. the reference coordinates (driver side)', 'positively oriented, non-degenerate cell at the shadow point; recorded path conditions (pivoting in Tiny::Matrix::set_inverse) restrict the claim',
-               'Lagrange3 cannot be instantiated with a non-literal scalar (static constexpr DataType coefficients): outside; Hermite3/Argyris/BFS/CaiDouSanSheYe/Q1~-bnp, inverse mapping, multi-cell continuity and DOF numbering are outside')
-    e2prop.run_e2(chk, e2prop.e2_harness_path('c15_e2.cpp'), 'c15_e2', timeout=25 if quick else 300, harness_args=['--bounds', lvl], max_group=1)
-    return chk.finish(
-        explanation='Partial (stated): the real element and transformation evaluators are executed on one cell whose vertex coordinates and evaluation point are symbolic; z3 decides as exact identities: partition of unity and vanishing gradient/Hessian sums, J = dx/dxi and hess_ten = dJ/dxi, J*J^-1 = I, J^T grad(phi) = d phi/d xi and the second-order chain rule for Hessians (derivatives obtained by differentiating the returned value terms symbolically), jac_det = simplex volume factor, and that interpolating a symbolic polynomial of the local degree through the real node functionals reproduces it at every point.',
-        rule=e2prop.E2_RULE, trusted=e2prop.E2_TRUSTED)
+               'Lagrange3 cannot be instantiated with a non-literal scalar (static constexpr DataType coefficients): its pointwise identities are outside (its DOF orientation handling is covered by the E3 continuity part); Hermite3/Argyris/BFS/CaiDouSanSheYe/Q1~-bnp, inverse mapping are outside')
+    only = os.environ.get('C15_ONLY')
+    if not only:
+        e2prop.run_e2(chk, e2prop.e2_harness_path('c15_e2.cpp'), 'c15_e2', timeout=25 if quick else 300, harness_args=['--bounds', lvl], max_group=1)
+    # ---- E3 part: inter-cell continuity with symbolic numbering (evaluators executed in IEEE double, index sets symbolic)
+    bdir = C.mkdir(os.path.join(C.BUILD, 'C15'))
+    wrapper = os.path.join(C.VERIF, 'wrappers', 'c15_cont.cpp')
+    mod, info = e3.build_ir('c15', wrapper, REPO_SRCS, bdir)
+    native = e3.Native('c15', wrapper, REPO_SRCS, bdir, list(SIGS.values()))
+    chk.extra['ir'] = info
+    tab = Tables(native)
+    jobs = continuity_jobs(tab, quick)
+    if only:
+        jobs = [j for j in jobs if only in j[0]]
+    chk.bounds.append('E3: Lagrange2 and Lagrange3 on TWO cells sharing a facet (quadrilaterals, triangles, hexahedra, tetrahedra; affine cells), with the second cell in any orientation preserving numbering and/or the shared facet / one of its edges in any congruent numbering (symbolic, solver-guided forking); 3 asymmetric sample points on the shared facet; evaluators in IEEE double, tolerance 1e-11')
+    chk.assume('E3 part: floating-point values are concrete; the symbolic inputs are the mesh index sets (numbering / orientation); continuity is sampled at 3 points of the facet (a polynomial of degree <= 3 per direction that agrees with another one for every orientation code at 3 asymmetric points is not proven equal, but a wrong DOF permutation changes the values at generic points)')
+    return e3run.run_jobs(chk, mod, native, jobs, info, quick, SIGS, 'c15',
+        trusted_extra=list(e2prop.E2_TRUSTED),
+        explanation='Partial (stated): the real element and transformation evaluators are executed on one cell whose vertex coordinates and evaluation point are symbolic; z3 decides as exact identities: partition of unity and vanishing gradient/Hessian sums, J = dx/dxi and hess_ten = dJ/dxi, J*J^-1 = I, J^T grad(phi) = d phi/d xi and the second-order chain rule for Hessians (derivatives obtained by differentiating the returned value terms symbolically), jac_det = simplex volume factor, and that interpolating a symbolic polynomial of the local degree through the real node functionals reproduces it at every point. E3 part: the real DofMapping and Lagrange2/Lagrange3 evaluators (incl. the sub-index / congruency mappings that permute edge and face dofs) are executed on two cells sharing a facet for every admissible numbering of the second cell and of the shared facet and its edges; every global basis function must have the same value on the facet seen from either cell, and basis functions of dofs outside the facet must vanish there.')
